@@ -202,3 +202,49 @@ def no_rng(ctx, pid, roots):
                     '%d instances reached, %d of the rand family%s' % (len(par), len(h), ('; e.g. ' + wit) if wit else ''),
                     breaks='the unsampled method is no longer deterministic')
         ctx.stats['paths'] += len(par)
+
+
+# frozen instances: functions that derive a child's reach vector from the parent's for each child
+REACH_DERIVERS = {
+    'solve::vanilla::thread_threshold': 'the frontier expansion queues every child of a player node with the parent reach * that action\'s probability',
+    'solve::vanilla::recurse_player': 'the traversal recurses into every action with the parent reach * that action\'s probability',
+}
+
+
+def child_reach_fresh(ctx, pid, fnames=None):
+    """a per-child reach vector ([f64; 2] copied from the parent's reach and then scaled in place) must be
+    re-initialised from the parent's reach for every child: the copy lies inside the loop that scales it"""
+    rule = '%s.child-reach-fresh' % pid
+    lib = ctx.lib
+    n = 0
+    for fname, why in REACH_DERIVERS.items():
+        if fnames is not None and fname not in fnames:
+            continue
+        f = ctx.fn('lib', fname, rule)
+        if f is None:
+            continue
+        for g in [f] + lib.closures_of(f):
+            for l, ds in g.defs.items():
+                if g.locals[l]['ty'] != '[f64; 2]' or l <= g.argc:
+                    continue
+                whole = [d for d in ds if d[0] == 'assign' and d[3]['r'] == 'use' and d[3]['a'].get('o') in ('copy', 'move')]
+                if not whole:
+                    continue
+                # in-place scaling: a mutable borrow of the local
+                muts = []
+                for bi in sorted(g.reach):
+                    for st in g.blocks[bi]['stmts']:
+                        if st['s'] == 'assign' and st['rv']['r'] == 'ref' and st['rv'].get('mut') and st['rv']['pl']['l'] == l and not st['rv']['pl']['p']:
+                            muts.append(bi)
+                for bm in muts:
+                    lp = g.loop_of(bm)
+                    if lp is None:
+                        continue
+                    n += 1
+                    ctx.touch(g)
+                    fresh = any(d[1] in lp[1] and g.dominates(d[1], bm) for d in whole)
+                    ctx.verdict(fresh, rule, '%s:%s' % (rule, q.top(g.name)), 'the child\'s reach is a fresh copy of the parent\'s reach for every child: the copy is made inside the loop over the children, before it is scaled',
+                                g.where(bm), 'reach vector `%s` copied from the parent inside the child loop: %s (%s)' % (g.local_name(l) or '_%d' % l, fresh, why),
+                                breaks='the k-th child is given the product of the first k action probabilities instead of its own: wrong reach in the subtrees handed to worker tasks')
+    if n == 0:
+        ctx.anchor_lost(rule, 'per-child reach vectors in %s' % sorted(fnames or REACH_DERIVERS))
